@@ -194,7 +194,7 @@ def execute(case, ctx):
     ctx.fault("insertion_permute")
     if cfg.get("triangulate"):
         ctx.fault("option_swarm")
-    backend = seams.effective_backend(case.get("backend", "numpy"), [x for f in world_factors(world) for x in f["values"]])
+    backend = seams.effective_backend(case.get("backend", "numpy"), [list(f["values"]) for f in world_factors(world)])
     seams.set_backend(backend)
     if backend == "torch":
         from ..refmodel import set_torch_rounding
